@@ -105,6 +105,7 @@ class Builder:
         self.stack = []
         self.fresh_counter = 0
         self.versioning = versioning
+        self.effect_hook = None
         self.choice = {}      # frozenset(candidate records) -> chosen record (configuration variant)
         self.ambig = []       # candidate-record sets seen without a choice
 
@@ -424,7 +425,8 @@ class Builder:
 
     # ------------------------------------------------------------------------------------------- expressions
     def term(self, e, fr):
-        return versioned(T.to_term(e, fr.ctx), self.versions)
+        fr.ctx.builder = self
+        return T.to_term(e, fr.ctx)
 
     def expr_calls_only(self, e, fr, out):
         """Process calls (for guards/effects of callees) in a condition."""
@@ -704,6 +706,26 @@ class Builder:
         info["token"] = "state"
         if init and rhs is not None:
             info["init_args"] = len(rhs.get("a", [])) if isinstance(rhs, dict) and "a" in rhs else 1
+        info["frame_this"] = fr.ctx.this_name
+        info["frame_params"] = [simplify(self.term({"k": "ref", "n": pp["n"], "d": "param", "ty": pp["ty"]}, fr)) for pp in fr.func.get("params", [])]
+        if lhs is not None:
+            l1 = astx.strip_casts(lhs)
+            if l1 is not None and l1.get("k") == "call" and len(l1["a"]) == 1:
+                info["element_index"] = simplify(self.term(l1["a"][0], fr))
+            elif l1 is not None and l1.get("k") == "idx":
+                info["element_index"] = simplify(self.term(l1["i"], fr))
+            elif l1 is not None and l1.get("k") == "un" and l1["op"] == "*":
+                inner = astx.strip_casts(l1["e"])
+                if inner is not None and inner.get("k") == "call" and astx.callee(inner)[0] == "next" and len(inner["a"]) == 2:
+                    info["element_index"] = simplify(self.term(inner["a"][1], fr))
+                elif inner is not None and inner.get("k") == "bin" and inner["op"] == "+":
+                    info["element_index"] = simplify(self.term(inner["r"], fr))
+                elif inner is not None and inner.get("k") == "call" and astx.callee(inner)[0] in ("begin", "data"):
+                    info["element_index"] = T.c(0)
+        if rhs is not None and astx.int_value(rhs) is not None:
+            info["stored_value"] = astx.int_value(rhs)
+        if self.effect_hook:
+            self.effect_hook(self, fr, out, info)
         if fieldname in fr.ctx.size_fields and rhs is not None and op == "=":
             info["size_update"] = simplify(self.term(rhs, fr))
         out.append(("effect", "own", info))
@@ -765,7 +787,23 @@ class Builder:
 
     def _record_for_type(self, ty, fr):
         r = self.db.resolve_type(ty, fr.func.get("record"))
-        return [r[0]] if r else []
+        if r:
+            return [r[0]]
+        # alternatives selected by a conditional alias (layouts / storages): every record the alias can denote
+        rec = self.db.record(fr.func["record"]) if fr.func.get("record") else None
+        if rec is None:
+            return []
+        base = self.db.strip_type(ty).split("::")[-1].split("<")[0]
+        out = []
+        for oq in self.db.lineage(fr.func["record"]):
+            orec = self.db.record(oq)
+            for al in (orec or {}).get("aliases", []):
+                if al["n"] == base:
+                    for q in self.db._records_named_in(al["ty"], orec):
+                        r2 = self.db.record(q)
+                        if r2 and (r2.get("parent") == oq or q.startswith("etl::detail::")) and q not in out:
+                            out.append(q)
+        return out
 
     def call(self, e, fr, out, stmt):
         n, q, recv, kind = astx.callee(e)
@@ -1119,7 +1157,8 @@ class Builder:
                         t = simplify(("cast", so, t)) if needs_cast(t, so) else t
                     ctx.locals[p["n"]] = t
             elif "def" in p:
-                ctx.locals[p["n"]] = simplify(versioned(T.to_term(p["def"], ctx), self.versions))
+                ctx.builder = self
+                ctx.locals[p["n"]] = simplify(T.to_term(p["def"], ctx))
         sub = Frame(cal, ctx, fr.depth + 1, fr.callpath + (astx.show(call, 60),))
         self.stack.append(id(cal))
         body = []
